@@ -190,7 +190,25 @@ def backend_module():
     return B
 
 
+class GridAdapter:
+    """`Circuit.statevector` (legacy fixed-depth class) as a layer-based backend: layer j becomes column j of the grid"""
+    def __init__(self, n):
+        self.n = n
+
+    def statevector(self, layers, psi):
+        from quantum_gates._simulation.circuit import Circuit
+        c = Circuit(self.n, len(layers), gates=None)
+        for j, l in enumerate(layers):
+            if len(l) != self.n:
+                raise ValueError("a column needs one entry per row")
+            for i, e in enumerate(l):
+                c.circuit[i][j] = e
+        return c.statevector(psi)
+
+
 def make_backend(name, n, mn, op):
+    if name == "grid":
+        return GridAdapter(n)
     B = backend_module()
     if name == "standard":
         return B.StandardBackend(n)
